@@ -1,8 +1,8 @@
-(* C03, request direction: one call of htp_connp_req_data on a piece of a grammar request, and every chunking of the request. *)
+(* C03, request direction: every chunking of a grammar request (header fields one line each, no body). *)
 Require Import Htp.Model.Base Htp.Model.MBstr Htp.Model.MConnTypes Htp.Model.MTxCommon Htp.Model.MReqLine Htp.Model.MReqUri Htp.Model.MTxReq.
 Require Import Htp.Model.MReq Htp.Model.MRes Htp.Model.MConnp.
 Require Import Htp.Spec.SWire Htp.Proof.PWire Htp.Proof.PWireHdr Htp.Proof.PWireBlock Htp.Proof.PWireConn Htp.Proof.PWireExch.
-Require Import Htp.Proof.PWireRun Htp.Proof.PWirePres Htp.Proof.PWireGlue Htp.Proof.PSeg Htp.Proof.PSegLine Htp.Proof.PSegHdr.
+Require Import Htp.Proof.PWireRun Htp.Proof.PWirePres Htp.Proof.PWireGlue Htp.Proof.PSeg Htp.Proof.PSegLine Htp.Proof.PSegHdr Htp.Proof.PSegGen.
 
 (* the limit premise as one bool: the request line fits, and every header line (and the empty line) fits together with the
    header line before it *)
@@ -21,15 +21,14 @@ Hypothesis Wl : wr_wf_request_line m u pr = true.
 Hypothesis Wb : wr_block_ok fs = true.
 Hypothesis Wnf : existsb (fun f => wr_same (wf_name f) wr_str_content_length || wr_same (wf_name f) wr_str_transfer_encoding) fs = false.
 Hypothesis Wc : wr_eqb m wr_str_connect = false.
-Hypothesis Hlim0 : (length (wr_ser_request_line m u pr) + 2 <= g_field_limit_hard g)%nat.
-Hypothesis Hfit0 : sg_fit (g_field_limit_hard g) 0 fs = true.
 
 Let line0 := wr_ser_request_line m u pr.
-(* the transaction when the header block starts, at its end, and when the request is complete *)
-Definition sg_th0 : tx := (sg_tx_line g wr_t1 line0) <| t_request_progress := c_HTP_REQUEST_HEADERS |>.
+Let sg_th0 := sg_th0 g m u pr.
+(* the transaction at the end of the request *)
 Definition sg_tfin (fl : bool) : tx :=
   (sg_hdr_end (if fl then tx_set_flag c_HTP_MULTI_PACKET_HEAD (wr_block_tx fs sg_th0) else wr_block_tx fs sg_th0))
     <| t_request_progress := c_HTP_REQUEST_COMPLETE |>.
+Definition sg_fin (txs : list (option tx)) : Prop := exists fl, txs = [Some (sg_tfin fl)].
 
 Lemma sg_okf : forallb wr_field_ok fs = true.
 Proof. unfold wr_block_ok in Wb. apply andb_prop in Wb. apply Wb. Qed.
@@ -39,8 +38,8 @@ Lemma sg_th0_facts :
   t_request_progress sg_th0 = c_HTP_REQUEST_HEADERS /\ t_response_progress sg_th0 = c_HTP_RESPONSE_NOT_STARTED /\
   (exists nu, t_parsed_uri sg_th0 = Some nu).
 Proof.
-  destruct (sg_tx_line_facts g Hspace wr_t1 m u pr Wl eq_refl) as (_ & F & H1 & H2 & _ & H4 & H5). cbv zeta in *. fold line0 in F, H1, H2, H4, H5.
-  unfold sg_th0. revert F H1 H2 H4 H5. generalize (sg_tx_line g wr_t1 line0). intros X F H1 H2 H4 H5.
+  destruct (sg_tx_line_facts g Hspace wr_t1 m u pr Wl eq_refl) as (_ & F & H1 & H2 & _ & H4 & H5). cbv zeta in *.
+  unfold sg_th0, PSegGen.sg_th0. revert F H1 H2 H4 H5. generalize (sg_tx_line g wr_t1 (wr_ser_request_line m u pr)). intros X F H1 H2 H4 H5.
   split; [exact F|]. split; [exact H1|]. split; [exact H2|]. split; [reflexivity|]. split; [exact H4|exact H5].
 Qed.
 
@@ -64,7 +63,7 @@ Qed.
 Lemma sg_tail c c1 d f : c_in_state c = REQ_HEADERS ->
   rq_state_fn cb g REQ_HEADERS c = rq_with_tx (tx_state_request_headers cb) c1 ->
   sg_cin c1 d (length d) [] None REQ_HEADERS (Some REQ_HEADERS) (Some H_REQUEST_HEADER_DATA) (wr_block_tx fs sg_th0) ->
-  exists cF rc fl, rq_loop cb g (5 + f) false c = (cF, rc) /\ c_txs cF = [Some (sg_tfin fl)].
+  exists cF rc, rq_loop cb g (5 + f) false c = (cF, rc) /\ sg_fin (c_txs cF).
 Proof.
   intros Es Ef H1. destruct sg_tb_facts as (M & Z9 & Pg & Rp & (nu & Pu) & N1 & N2). cbv zeta in *.
   set (tb := wr_block_tx fs sg_th0) in *.
@@ -88,21 +87,14 @@ Proof.
   assert (Z6 : t_is_protocol_0_9 t6 = false) by (rewrite K6'; exact Z9).
   destruct (sg_pass_finalize cb g Hcb c5 d _ _ t6 H5 TC Pg6 Rp6 Z6) as (c6 & E6 & Dn & St6 & Ln6 & Rd6 & Rh6). rewrite (sg_rq_loop_inr cb g _ _ _ E6).
   rewrite (sg_rq_loop_inl cb g _ _ _ (sg_pass_idle_end cb g c6 _ (length d) Dn St6 Ln6 Rd6 Rh6)).
-  eexists _, _, fl. split; [reflexivity|]. change (c_txs (c6 <| c_in_status := c_HTP_STREAM_DATA |>)) with (c_txs c6). apply (dn_txs _ _ Dn).
+  eexists _, _. split; [reflexivity|]. exists fl. change (c_txs (c6 <| c_in_status := c_HTP_STREAM_DATA |>)) with (c_txs c6). apply (dn_txs _ _ Dn).
 Qed.
-
-(* ---- the state between two calls, and what one call has to establish ---- *)
-Definition sg_between (c : connp) (rw : bytes) : Prop :=
-  (exists p q, sg_mid c p None REQ_LINE None wr_t1 /\ p ++ q = line0 ++ [CR; LF] /\ q <> [] /\ rw = q ++ wr_block_wire fs ++ [CR; LF]) \/
-  (exists p hdr t, sg_mid c p hdr REQ_HEADERS (Some H_REQUEST_HEADER_DATA) t /\ sg_hlog g sg_th0 fs hdr t p rw).
-Definition sg_post (cF : connp) (rw' : bytes) : Prop :=
-  (rw' <> [] /\ sg_between cF rw') \/ (rw' = [] /\ exists fl, c_txs cF = [Some (sg_tfin fl)]).
 
 (* ---- a call that starts (or continues) in REQ_HEADERS ---- *)
 Lemma sg_call_hdrs c d rd p hdr t rw' f :
   sg_cin c d rd p hdr REQ_HEADERS (Some REQ_HEADERS) (Some H_REQUEST_HEADER_DATA) t ->
   sg_hlog g sg_th0 fs hdr t p (skipn rd d ++ rw') ->
-  exists cF rc, rq_loop cb g (6 + f) false c = (cF, rc) /\ sg_post cF rw'.
+  exists cF rc, rq_loop cb g (6 + f) false c = (cF, rc) /\ sg_post m u pr (wr_block_wire fs ++ [CR; LF]) (sg_hlog g sg_th0 fs) sg_fin cF rw'.
 Proof.
   intros H (fs_done & fs_rem & q & Efs & Hfl & Hpq & Hq & Hw & Hfit).
   assert (Ok : forallb wr_field_ok fs_rem = true).
@@ -119,155 +111,21 @@ Proof.
     + change (6 + f)%nat with (S (5 + f)). apply sg_rq_loop_inl. unfold rq_iter. rewrite Es, Ef, EA, EF. reflexivity.
     + left. split; [exact HA3|]. right. exists p', hdr', t'. split; [exact HF|exact HA2].
   - destruct HB as (c' & EB & HB1 & HB2). rewrite <- Efs in HB1. rewrite <- Ef in EB.
-    destruct (sg_tail c c' d (1 + f) Es EB HB1) as (cF & rc & fl & E & T).
-    exists cF, rc. split; [exact E|]. right. split; [exact HB2|]. exists fl. exact T.
+    destruct (sg_tail c c' d (1 + f) Es EB HB1) as (cF & rc & E & T).
+    exists cF, rc. split; [exact E|]. right. split; [exact HB2|exact T].
 Qed.
 
-(* ---- a call that starts (or continues) in REQ_LINE ---- *)
-Lemma sg_call_line c d p q rw' f :
-  sg_cin c d 0 p None REQ_LINE (Some REQ_LINE) None wr_t1 ->
-  p ++ q = line0 ++ [CR; LF] -> q <> [] -> d ++ rw' = q ++ wr_block_wire fs ++ [CR; LF] ->
-  exists cF rc, rq_loop cb g (8 + f) false c = (cF, rc) /\ sg_post cF rw'.
-Proof.
-  intros H Hpq Hq Hw.
-  destruct (wr_reqline_bytes m u pr Wl) as (Hnolf & _). fold line0 in Hnolf.
-  assert (Eb : line0 ++ [CR; LF] = (line0 ++ [CR]) ++ [LF]) by (rewrite <- app_assoc; reflexivity).
-  destruct (sg_app_cases d rw' q _ Hw) as [Clt Cge].
-  assert (Es : c_in_state c = REQ_LINE) by apply (ci_state _ _ _ _ _ _ _ _ _ H).
-  destruct (Nat.lt_ge_cases (length d) (length q)) as [Llt|Lge].
-  - (* the chunk ends inside the request line *)
-    destruct (Clt Llt) as (q2 & Eq & Hq2 & Erw).
-    assert (Nu : sg_no_lf d = true).
-    { rewrite Eq, Eb, app_assoc in Hpq. destruct (sg_app_last _ _ _ _ Hpq Hq2) as (q3 & _ & E3). unfold sg_no_lf. rewrite <- E3, <- app_assoc, !forallb_app in Hnolf.
-      apply andb_prop in Hnolf. destruct Hnolf as [_ Nb]. apply andb_prop in Nb. apply Nb. }
-    destruct (sg_line_scan_nolf cb g d None _ _ wr_t1 d c 0 p (length d) H eq_refl Nu (le_n _)) as (c' & E & H').
-    assert (Lim : (length (p ++ d) + length (sg_olist None) <= g_field_limit_hard g)%nat).
-    { assert (L : length (p ++ q) = (length line0 + 2)%nat) by (rewrite Hpq, app_length; reflexivity). rewrite app_length in L. rewrite app_length.
-      cbn [sg_olist length]. unfold line0 in L. lia. }
-    destruct (sg_exit_buffer cb g Hcb c' d _ None _ _ wr_t1 H' Lim) as (cF & EF & HF).
-    exists cF, c_HTP_STREAM_DATA. split.
-    + change (8 + f)%nat with (S (7 + f)). apply sg_rq_loop_inl. unfold rq_iter. rewrite Es. cbn [rq_state_fn]. unfold REQ_LINE_fn.
-      rewrite (ci_len _ _ _ _ _ _ _ _ _ H), (ci_read _ _ _ _ _ _ _ _ _ H), Nat.sub_0_r, E, EF. reflexivity.
-    + left. split; [rewrite Erw; destruct q2; [contradiction|discriminate]|]. left. exists (p ++ d), q2.
-      split; [exact HF|]. split; [rewrite <- app_assoc, <- Eq; exact Hpq|]. split; [exact Hq2|exact Erw].
-  - (* the request line is complete in this chunk *)
-    destruct (Cge Lge) as (d2 & Ed & Eaft).
-    rewrite Eb in Hpq. destruct (sg_app_last _ _ _ _ Hpq Hq) as (q1 & Eq1 & Ep1).
-    assert (Nq1 : sg_no_lf q1 = true) by (unfold sg_no_lf in *; rewrite <- Ep1, forallb_app in Hnolf; apply andb_prop in Hnolf; apply Hnolf).
-    assert (Ed' : d = q1 ++ LF :: d2) by (rewrite Ed, Eq1, <- app_assoc; reflexivity).
-    assert (Ep : p ++ q1 ++ [LF] = wr_ser_request_line m u pr ++ [CR; LF]) by (rewrite app_assoc, Ep1; symmetry; exact Eb).
-    destruct (sg_pass_line cb g Hcb Hspace c d p q1 d2 wr_t1 m u pr Wl eq_refl H Ed' Nq1 Ep Hlim0) as (c2 & E2 & H2 & Hr2).
-    change (8 + f)%nat with (S (S (6 + f))). rewrite (sg_rq_loop_inr cb g _ _ _ E2).
-    destruct sg_th0_facts as (F & Hh0 & Hr0 & Hp0 & _).
-    assert (Z9 : t_is_protocol_0_9 (sg_tx_line g wr_t1 (wr_ser_request_line m u pr)) = false).
-    { destruct (sg_tx_line_facts g Hspace wr_t1 m u pr Wl eq_refl) as (_ & F' & _). cbv zeta in F'. unfold wr_line_fields in F'. decompose [and] F'. assumption. }
-    destruct (sg_pass_protocol cb g c2 d _ _ H2 Z9) as (c3 & E3 & H3). rewrite (sg_rq_loop_inr cb g _ _ _ E3).
-    fold line0 in H3. fold sg_th0 in H3.
-    apply (sg_call_hdrs c3 d _ [] None sg_th0 rw' f H3).
-    exists [], fs, (sg_next fs). split; [reflexivity|]. split; [reflexivity|]. split; [reflexivity|]. split; [apply sg_next_ne|].
-    split; [rewrite Hr2, <- sg_wire_split; symmetry; exact Eaft|exact Hfit0].
-Qed.
-
-(* ---- one call of htp_connp_req_data ---- *)
-Lemma sg_fuel_8 (x : bytes) : exists f, rq_fuel (length x) = (8 + f)%nat.
-Proof. exists (16 * length x + 8)%nat. unfold rq_fuel. lia. Qed.
-
-Lemma sg_step c (rw x rw' : bytes) : sg_between c rw -> x <> [] -> rw = x ++ rw' ->
-  exists c' rc, connp_req_data cb g (Some x) (length x) c = (c', rc) /\ sg_post c' rw'.
-Proof.
-  intros [(p & q & Hm & Hpq & Hq & Erw)|(p & hdr & t & Hm & Hl)] Hne Ex.
-  - destruct (sg_enter cb g c p None _ _ wr_t1 x Hm Hne) as (c1 & E1 & H1). unfold bytes in *. rewrite E1.
-    destruct (sg_fuel_8 x) as (f & Ef). rewrite Ef.
-    apply (sg_call_line c1 x p q rw' f H1 Hpq Hq). rewrite <- Ex. exact Erw.
-  - destruct (sg_enter cb g c p hdr _ _ t x Hm Hne) as (c1 & E1 & H1). unfold bytes in *. rewrite E1.
-    destruct (sg_fuel_8 x) as (f & Ef). rewrite Ef. change (8 + f)%nat with (6 + (2 + f))%nat.
-    apply (sg_call_hdrs c1 x 0 p hdr t rw' _ H1). cbn [skipn]. rewrite <- Ex. exact Hl.
-Qed.
-
-(* the first call: the parser as htp_connp_open leaves it *)
-Lemma sg_first c0 (x rw' : bytes) :
-  c_in_status c0 = c_HTP_STREAM_OPEN -> c_out_status c0 = c_HTP_STREAM_OPEN -> c_in_state c0 = REQ_IDLE -> c_in_state_previous c0 = None ->
-  c_in_tx c0 = None -> c_txs c0 = [] -> c_txs_shifted c0 = 0%nat ->
-  k_buf (c_in c0) = None -> k_header (c_in c0) = None -> k_receiver_hook (c_in c0) = None ->
-  x <> [] -> x ++ rw' = line0 ++ [CR; LF] ++ wr_block_wire fs ++ [CR; LF] ->
-  exists c' rc, connp_req_data cb g (Some x) (length x) c0 = (c', rc) /\ sg_post c' rw'.
-Proof.
-  intros Hst Host Hs Hp Ht Htxs Hshift Hb Hh Hrh Hne Ex.
-  assert (Hlen0 : (length x =? 0)%nat = false) by (destruct x; [contradiction|reflexivity]).
-  unfold connp_req_data. rewrite Hst.
-  change ((c_HTP_STREAM_OPEN =? c_HTP_STREAM_STOP)%Z) with false. change ((c_HTP_STREAM_OPEN =? c_HTP_STREAM_ERROR)%Z) with false. cbv iota.
-  rewrite Ht, Hs. cbn [req_state_eqb negb]. rewrite Hlen0. cbn [andb].
-  match goal with |- context [rq_loop cb g _ _ ?y] => set (c1 := y) end.
-  assert (St1 : (c_in_status (rq_set_in (fun k => k <| k_data := Some x |> <| k_len := length x |> <| k_read := 0%nat |> <| k_consume := 0%nat |> <| k_receiver := 0%nat |>) c0
-                   <| c_in_chunk_count ::= S |> <| c_in_data_counter ::= Z.add (Z.of_nat (length x)) |>) =? c_HTP_STREAM_TUNNEL)%Z = false).
-  { change (c_in_status _) with (c_in_status c0). rewrite Hst. reflexivity. }
-  rewrite St1 in *. clear St1.
-  assert (Idle1 : wr_idle c1 x).
-  { unfold c1. match goal with |- context [(c_out_status ?y =? _)%Z] => change (c_out_status y) with (c_out_status c0) end. rewrite Host. change ((c_HTP_STREAM_OPEN =? c_HTP_STREAM_DATA_OTHER)%Z) with false. cbv iota.
-    constructor; try assumption; reflexivity. }
-  clearbody c1.
-  destruct (sg_pass_idle cb g Hcb c1 x Idle1 Hne) as (c2 & E2 & H2).
-  destruct (sg_fuel_8 x) as (f & Ef). rewrite Ef. change (8 + f)%nat with (S (8 + (f - 1))) || replace (8 + f)%nat with (S (8 + (f - 1))).
-  2: { unfold rq_fuel in Ef. lia. }
-  rewrite (sg_rq_loop_inr cb g _ _ _ E2).
-  apply (sg_call_line c2 x [] (line0 ++ [CR; LF]) rw' _ H2 eq_refl).
-  - intro E. apply app_eq_nil in E. destruct E as [_ E]. discriminate.
-  - rewrite Ex, <- !app_assoc. reflexivity.
-Qed.
-
-(* ---- finish_call between two calls ---- *)
-Lemma sg_mid_finish c p hdr st rh t : sg_mid c p hdr st rh t -> sg_mid (forget_chunks c <| c_events := [] |>) p hdr st rh t.
-Proof.
-  intros [A1 A2 A3 A4 A5 A6 A7 A8 A9].
-  assert (F : k_buf (forget_one (c_in c)) = k_buf (c_in c) /\ k_header (forget_one (c_in c)) = k_header (c_in c) /\
-              k_receiver_hook (forget_one (c_in c)) = k_receiver_hook (c_in c)) by (unfold forget_one; destruct (k_data (c_in c)); repeat split).
-  destruct F as (F1 & F2 & F3).
-  constructor; try assumption; cbn [forget_chunks c_in set]; cbn; rewrite ?F1, ?F2, ?F3; assumption.
-Qed.
-Lemma sg_between_finish c rw : sg_between c rw -> sg_between (forget_chunks c <| c_events := [] |>) rw.
-Proof.
-  intros [(p & q & Hm & R)|(p & hdr & t & Hm & R)].
-  - left. exists p, q. split; [apply sg_mid_finish; exact Hm|exact R].
-  - right. exists p, hdr, t. split; [apply sg_mid_finish; exact Hm|exact R].
-Qed.
-
-Lemma sg_cp_run_cons c (x : bytes) ops :
-  fst (cp_run cb g c (OpReqData x :: ops)) = fst (cp_run cb g (forget_chunks (fst (connp_req_data cb g (Some x) (length x) c)) <| c_events := [] |>) ops).
-Proof.
-  cbn [cp_run cp_step]. destruct (connp_req_data cb g (Some x) (length x) c) as [c1 rc]. cbn [fst]. unfold finish_call.
-  destruct (cp_run cb g (forget_chunks c1 <| c_events := [] |>) ops) as [c2 xs]. reflexivity.
-Qed.
-
-Lemma sg_concat_nil (l : list bytes) : Forall (fun x => x <> []) l -> concat l = [] -> l = [].
-Proof. destruct l as [|x l]; [reflexivity|]. intros F E. cbn [concat] in E. apply app_eq_nil in E. destruct E as [E _]. inversion F. contradiction. Qed.
-
-(* ---- every later chunk ---- *)
-Lemma sg_chunks : forall (chunks : list bytes) c rw, sg_between c rw -> rw <> [] -> Forall (fun x => x <> []) chunks -> concat chunks = rw ->
-  exists fl, c_txs (fst (cp_run cb g c (map OpReqData chunks))) = [Some (sg_tfin fl)].
-Proof.
-  induction chunks as [|x rest IH]; intros c rw Hb Hne Hall Hc.
-  - cbn [concat] in Hc. congruence.
-  - cbn [concat] in Hc. cbn [map]. rewrite sg_cp_run_cons.
-    destruct (sg_step c rw x (concat rest) Hb (Forall_inv Hall) (eq_sym Hc)) as (c' & rc & E & [[Hn Hb']|[Hn (fl & T)]]); unfold bytes in *; rewrite E; cbn [fst].
-    + apply (IH _ (concat rest) (sg_between_finish _ _ Hb') Hn (Forall_inv_tail Hall) eq_refl).
-    + rewrite (sg_concat_nil rest (Forall_inv_tail Hall) Hn). exists fl. cbn [map cp_run fst]. exact T.
-Qed.
 
 (* ---- every chunking of the request, from htp_connp_open on ---- *)
-Lemma sg_all_chunks (chunks : list bytes) : Forall (fun x => x <> []) chunks -> concat chunks = line0 ++ [CR; LF] ++ wr_block_wire fs ++ [CR; LF] ->
+Lemma sg_run_all_chunks (chunks : list bytes) :
+  (length (wr_ser_request_line m u pr) + 2 <= g_field_limit_hard g)%nat -> sg_fit (g_field_limit_hard g) 0 fs = true ->
+  Forall (fun x => x <> []) chunks -> concat chunks = line0 ++ [CR; LF] ++ wr_block_wire fs ++ [CR; LF] ->
   exists fl, c_txs (fst (cp_run cb g connp_new (OpOpen :: map OpReqData chunks))) = [Some (sg_tfin fl)].
 Proof.
-  intros Hall Hc.
-  set (c0 := forget_chunks (connp_open connp_new) <| c_events := [] |>).
-  assert (E0 : fst (cp_run cb g connp_new (OpOpen :: map OpReqData chunks)) = fst (cp_run cb g c0 (map OpReqData chunks))).
-  { cbn [cp_run cp_step]. unfold finish_call. fold c0. destruct (cp_run cb g c0 (map OpReqData chunks)). reflexivity. }
-  rewrite E0. destruct chunks as [|x rest].
-  - cbn [concat] in Hc. symmetry in Hc. apply app_eq_nil in Hc. destruct Hc as [_ Hc]. discriminate.
-  - cbn [concat] in Hc. cbn [map]. rewrite sg_cp_run_cons.
-    destruct (sg_first c0 x (concat rest) eq_refl eq_refl eq_refl eq_refl eq_refl eq_refl eq_refl eq_refl eq_refl eq_refl (Forall_inv Hall) Hc)
-      as (c' & rc & E & [[Hn Hb']|[Hn (fl & T)]]); unfold bytes in *; rewrite E; cbn [fst].
-    + apply (sg_chunks rest _ (concat rest) (sg_between_finish _ _ Hb') Hn (Forall_inv_tail Hall) eq_refl).
-    + rewrite (sg_concat_nil rest (Forall_inv_tail Hall) Hn). exists fl. cbn [map cp_run fst]. exact T.
+  intros Hlim0 Hfit0 Hall Hc.
+  apply (sg_all_chunks cb g Hcb Hspace m u pr Wl Hlim0 (wr_block_wire fs ++ [CR; LF]) (sg_hlog g sg_th0 fs) sg_fin); [|exact sg_call_hdrs|exact Hall|exact Hc].
+  exists [], fs, (sg_next fs). split; [reflexivity|]. split; [reflexivity|]. split; [reflexivity|]. split; [apply sg_next_ne|].
+  split; [apply sg_wire_split|exact Hfit0].
 Qed.
 End Run.
 
@@ -290,7 +148,7 @@ Proof.
   apply andb_prop in Wr. destruct Wr as [Wr Wc]. apply andb_prop in Wr. destruct Wr as [Wr Wnf]. apply andb_prop in Wr. destruct Wr as [Wl Wb].
   apply negb_true_iff in Wnf. apply negb_true_iff in Wc.
   unfold sg_fits in Hf. cbn [wq_method wq_uri wq_protocol wq_fields] in Hf. apply andb_prop in Hf. destruct Hf as [Hl0 Hfit]. apply Nat.leb_le in Hl0.
-  destruct (sg_all_chunks cb g Hcb Hsp m u p fs Wl Wb Wnf Wc Hl0 Hfit chunks Hall Hc) as (fl & T).
+  destruct (sg_run_all_chunks cb g Hcb Hsp m u p fs Wl Wb Wnf Wc chunks Hl0 Hfit Hall Hc) as (fl & T).
   exists (sg_tfin g m u p fs fl). split; [exact T|]. unfold sg_tref. cbn [wq_method wq_uri wq_protocol wq_fields]. apply sg_mask_tfin.
 Qed.
 
